@@ -141,6 +141,9 @@ class Replayer:
                 res = OPFUN[op](regs[aa], regs[bb])
                 if id(regs[aa]) in self.inexact or id(regs[bb]) in self.inexact:
                     self.inexact[id(res)] = res
+                    # the operands receive the (float) crossing points as new vertices
+                    self.inexact[id(regs[aa])] = regs[aa]
+                    self.inexact[id(regs[bb])] = regs[bb]
                 regs[dd] = res
                 result_reg = dd
                 tags_res = {"region": "C01", "kind": "C06", "loops": "C06", "moment": "C04", "vertices": "C06"}
@@ -472,6 +475,24 @@ def history_case(u, row, word, warm):
     ans = {"aa": True, "bb": True, "ba": row["sub_ba"], "ab": row["sub_ab"]}[warm]
     steps.append(("QSubset", (wa, wb), st((), (), {"call": "in", "ans": ans})))
     fa = fb = ()
+    if word and word[0] == "far":
+        # relative motion: A is moved far away, queried there (ShapeSys: FarApart, FarSubset),
+        # and moved back; afterwards both are at the same place again
+        unb = lambda r_: bool(r_ & 1)
+        steps.append(("Transform", (1, 1, "f1"), st(("f1",), (), {"call": "transform"})))
+        steps.append(("QSubset", (1, 2), st(("f1",), (), {"call": "in", "ans": unb(ra) and not unb(rb)})))     # b in a
+        steps.append(("QSubset", (2, 1), st(("f1",), (), {"call": "in", "ans": unb(rb) and not unb(ra)})))     # a in b
+        steps.append(("Transform", (1, 1, "F1"), st((), (), {"call": "transform"})))
+        word = ()
+    elif word and word[0] == "rot4":
+        # A is rotated by a quarter turn, a binary query is made there (QProbe: not judged),
+        # and three more quarter turns bring it back to the same place (frame word r1^4)
+        steps.append(("Transform", (1, 1, "r1"), st(("r1",), (), {"call": "transform"})))
+        steps.append(("QProbe", (1, 2), st(("r1",), (), {"call": "probe"})))
+        for n_ in (2, 3, 4):
+            steps.append(("Transform", (1, 1, "r1"), st(("r1",) * n_, (), {"call": "transform"})))
+        fa = ("r1",) * 4
+        word = ()
     for g in word:
         fa = fa + (g,)
         steps.append(("Transform", (1, 1, g), st(fa, fb, {"call": "transform"})))
@@ -487,7 +508,7 @@ def history_case(u, row, word, warm):
         s_last = {"heap": (E_REC, W_REC, rec(ra, fa, row["sa"], row["ka"]), rec(rb, fb, row["sb"], row["kb"]), third or FREE),
                   "regs": (3, 4, 1 if rr == 0 else 2 if rr == full else 5), "obs": {"call": "bin", "op": row["op"], "cls": row["cls"], "res": rr}}
         steps.append(("Bin", (row["op"], 3, 1, 2), s_last))
-    return {"label": "hist-%s-%s" % ("".join(word), warm), "universe": u.name, "steps": steps,
+    return {"label": "hist-%s-%s" % ("".join(g_ for n_, g_, _s in [(0, a_[2], 0) for nm_, a_, _st in steps if nm_ == "Transform"]), warm), "universe": u.name, "steps": steps,
             "row": {"op": "h%s%s%s" % (row["op"], "".join(word), warm), "a": ra, "b": rb, "res": row["res"], "cls": row["cls"]}}
 
 
